@@ -1331,7 +1331,11 @@ class Kconfig(object):
                 )
             )
 
-            self.set_value_and_source(sym, val if val[0] not in ("'", '"') else val[1:-1], filename)
+            if val[:1] in ("'", '"'):
+                # the entry was written escaped, like the assignment of the option itself
+                str_match = _conf_string_match(val)
+                val = unescape(str_match.group(1)) if str_match else val[1:-1]
+            self.set_value_and_source(sym, val, filename)
             return sym
 
         in_deprecated_block = False
